@@ -91,7 +91,15 @@ def oracle_reassign(ctx, best, scores, result, where):
             steals.append({'precision_row': p, 'target': t, 'stolen_channels': st})
     valid = all(float(b) >= 0 and float(b) == int(b) for b in best.tolist()) and \
         sum(int(b) for b in best.tolist()) == C
-    return {'targets_valid': valid,
+    from vf.findings import reassign_pinned_model
+    try:
+        pinned = reassign_pinned_model(best, scores)
+        matches = bool(torch.equal(pinned, result))
+    except Exception:
+        matches = False
+    ints = [int(b) for b in best.tolist()]
+    return {'targets_valid': valid, 'matches_pinned_algorithm': matches,
+            'targets_off_by_one_step': False,
             'sig': ('counts' if not met else 'column-not-one-hot') + ':' + where +
             ('' if valid else ':invalid-targets'),
             'scores': scores.tolist(), 'targets': [int(b) for b in best.tolist()],
@@ -144,7 +152,7 @@ def run_grid(case, ctx):
                     ctx.violation('reassign-counts', w)
                 else:
                     ctx.count('reassign_violations_not_listed_individually')
-                    if not w['topk_steals']:
+                    if not w['topk_steals'] or not w['matches_pinned_algorithm']:
                         ctx.violation('reassign-counts', w)
             if comp != cur_counts:
                 ctx.count('grid_nontrivial')
@@ -251,8 +259,6 @@ def run_e2e(case, ctx):
     after = bits_of(mps.summary())
     calls = list(_rec['calls'])
     count_mismatch = [c['witness'] for c in calls if c['witness'] is not None]
-    for w in count_mismatch:
-        ctx.violation('reassign-counts', w)
     changed = False
     any_flags = []
     # per layer: promotion only, counts == chosen counts
@@ -280,6 +286,21 @@ def run_e2e(case, ctx):
             flags['targets_valid'] = all(v >= 0 for v in chosen.values()) and \
                 sum(chosen.values()) == len(b)
             flags['reassign_count_mismatch'] = call['witness'] is not None
+            from vf.findings import reassign_pinned_model
+            try:
+                flags['reassign_matches_pinned_algorithm'] = bool(torch.equal(
+                    reassign_pinned_model(torch.tensor(call['best']), call['scores']),
+                    call['result']))
+            except Exception:
+                flags['reassign_matches_pinned_algorithm'] = False
+            # signature of the float-drift mechanism: every (i -> j) move of the count loop can take
+            # one step too many, so entries go to -1 at worst, the total overshoots by at most one
+            # per precision, and the 0-bit row (never touched by the loop) keeps its count
+            cv = list(chosen.values())
+            flags['zero_row_preserved'] = (0 not in chosen) or chosen[0] == orig_counts[0]
+            flags['targets_off_by_one_step'] = (not flags['targets_valid']) and min(cv) >= -1 and \
+                len(b) - len(cv) <= sum(cv) <= len(b) + len(cv) and flags['zero_row_preserved']
+            call['flags'] = flags
             flags['chosen_is_promotion'] = all(
                 sum(v for p, v in chosen.items() if p >= thr) >=
                 sum(v for p, v in orig_counts.items() if p >= thr) for thr in set(qprec))
@@ -300,11 +321,23 @@ def run_e2e(case, ctx):
             ctx.violation('channel-demotion', dict(
                 flags, sig='demotion', layer=name, before=b, after=a, demoted=demoted[:6],
                 chosen_counts=chosen, by_reassignment_step=call is not None))
+    for c in calls:
+        if c['witness'] is not None:
+            w = dict(c['witness'])
+            fl = c.get('flags') or {}
+            w['targets_off_by_one_step'] = bool(fl.get('targets_off_by_one_step'))
+            w['zero_row_preserved'] = fl.get('zero_row_preserved')
+            w['layer'] = c.get('used')
+            ctx.violation('reassign-counts', w)
     if cost_after > cost_before * (1 + 1e-6):
         ctx.violation('cost-increase', {
             'sig': 'cost', 'before': cost_before, 'after': cost_after, 'w_prec': w_prec,
             'reassign_count_mismatch_layers': len(count_mismatch),
             'layers_with_invalid_targets': sum(1 for f in any_flags if not f['targets_valid']),
+            'layers_with_off_by_one_step_targets': sum(
+                1 for f in any_flags if f.get('targets_off_by_one_step')),
+            'all_reassign_calls_match_pinned_algorithm': all(
+                f.get('reassign_matches_pinned_algorithm') for f in any_flags),
             'layers_with_permuted_counts': sum(
                 1 for f in any_flags if f['chosen_is_sort_permutation_of_original'])})
     if changed:
